@@ -94,6 +94,19 @@ Fixpoint hals_loop (tol : F) (fuel : nat) (first : bool) (err0 : F) (V : list (l
     if fltb Op (snd st) (fmul Op tol err0') then fst st else hals_loop tol f false err0' (fst st)
   end.
 
+(* with the optional callback: `retVal = callback(V, rec_error); if retVal is True: break` (after the pass, before the
+   stopping rule).  cb = fun _ _ => false is the loop without callback (Proofs: hals_loop_cb_none). *)
+Fixpoint hals_loop_cb (cb : list (list F) -> F -> bool) (tol : F) (fuel : nat) (first : bool) (err0 : F) (V : list (list F)) : list (list F) :=
+  match fuel with
+  | O => V
+  | S f =>
+    let st := hals_pass_e V in
+    if cb (fst st) (snd st) then fst st
+    else
+      let err0' := if first then snd st else err0 in
+      if fltb Op (snd st) (fmul Op tol err0') then fst st else hals_loop_cb cb tol f false err0' (fst st)
+  end.
+
 (* the same loop, also returning the stopping decisions it took: one pair (rec_error, tol * rec_error0) per executed
    pass (Proofs: snd (hals_trace ...) = hals_loop ...).  Used by the correspondence to decide whether the decisions
    were numerically clear-cut. *)
@@ -187,6 +200,36 @@ Fixpoint fista_trace (betas : list F) (first : bool) (norm0 : F) (x xu : list (l
     else let r := fista_trace rest false norm0' xn xu' in (d :: fst r, snd r)
   end.
 End Fista.
+
+(* ====================================================================================== *)
+(*  fista with a LIST of matrices as UtU (`isinstance(UtU, list)`), order-2 unknown       *)
+(* ====================================================================================== *)
+(* x_gradient = -UtM + multi_mode_dot(x_update, UtU, transpose=False) + sparsity_coef + 2 ridge_coef x_update; for a
+   matrix unknown x (r1 x r2) and UtU = [A, B] this is A x B^T: the core update of non_negative_tucker_hals for an order-2
+   core.  lr must be given (the default would take the SVD of a list).  Everything else is the loop of `fista`; the loop
+   is written directly with its decision trace. *)
+Section Fista2.
+Variables (UtM A B : list (list F)) (r2 : nat) (nonneg : bool) (sp rd lr tol eps : F).
+Definition mmd2 (xu : list (list F)) : list (list F) := matmul r2 A (matmul r2 xu (mtranspose r2 B)).
+Definition fista2_grad (xu : list (list F)) : list (list F) :=
+  mmap2 (fun a v => fadd Op (fadd Op a sp) (fmul Op (fmul Op two rd) v))
+        (mmap2 (fadd Op) (mmap (fopp Op) UtM) (mmd2 xu)) xu.
+Definition fista2_new (xu : list (list F)) : list (list F) :=
+  mmap (fista_prox nonneg eps) (mmap2 (fun a g => fsub Op a (fmul Op lr g)) xu (fista2_grad xu)).
+Fixpoint fista2_trace (betas : list F) (first : bool) (norm0 : F) (x xu : list (list F)) : list (F * F) * list (list F) :=
+  match betas with
+  | [] => ([], x)
+  | beta :: rest =>
+    let xn := fista2_new xu in
+    let xu' := mmap2 (fun a d => fadd Op a (fmul Op beta d)) xn (mmap2 (fsub Op) xn x) in
+    let nrm := fista_nrm x xn in
+    let norm0' := if first then nrm else norm0 in
+    let d := (nrm, fmul Op tol norm0') in
+    if fltb Op nrm (fmul Op tol norm0') then ([d], xn)
+    else let r := fista2_trace rest false norm0' xn xu' in (d :: fst r, snd r)
+  end.
+Definition fista2 (x0 : list (list F)) (betas : list F) : list (list F) := snd (fista2_trace betas true (f0 Op) x0 x0).
+End Fista2.
 
 (* ====================================================================================== *)
 (*  admm, n_const = None                                                                  *)
